@@ -1,13 +1,14 @@
-\* behaviours: nesting depth 3 (exhaustive in the thorough tier; -simulate in the quick tier)
+\* behaviours: nesting depth 3 (exhaustive, thorough tier)
 SPECIFICATION GenSpec
 CONSTANTS
   Ints <- DeepInts
   Strs <- DeepStrs
   Tags <- DeepTags
+  Simples <- AllSimples
   MaxStack = 4
   MaxNodes = 5
   MaxDepth = 3
   MaxArr = 3
   MaxPairs = 2
   AllowWrap = TRUE
-INVARIANTS TypeOK RoundTrip SelfDelimiting NoItemIsAPrefix PrefixFree CanonicalEncoding ReEncode HeadIsShortest WrapIsExact Emit
+INVARIANTS Theorems Emit
